@@ -124,20 +124,148 @@ def callback_params(prog, fn):
     return out
 
 
+def flag_params(prog, fn):
+    """parameters of fn (1-based) whose value decides a branch of fn: the discriminant of some switch is the parameter
+    itself, its negation, its enum discriminant, or its comparison with a constant"""
+    from ssa import strip
+    out = set()
+    b = fn.body
+    for blk, d in b.switch_discr.items():
+        d = strip(d)
+        for _ in range(3):
+            if d.kind == 'un' and d.args[0] == 'Not':
+                d = strip(d.args[1])
+            elif d.kind == 'discr':
+                d = strip(d.args[0])
+                while d.kind == 'load' and all(p == '*' for p in d.args[1]):
+                    d = strip(d.args[0])
+            elif d.kind == 'bin' and d.args[0] in ('Eq', 'Ne'):
+                x, y = strip(d.args[1]), strip(d.args[2])
+                if y.kind == 'const' and x.kind != 'const':
+                    d = x
+                elif x.kind == 'const' and y.kind != 'const':
+                    d = y
+                else:
+                    break
+            else:
+                break
+        if d.kind == 'param':
+            out.add(d.args[0])
+    return out
+
+
+def constant_arg(prog, a):
+    """is the argument a compile-time flag: a bool / enum constant or an enum variant built on the spot"""
+    from ssa import strip
+    a = strip(a)
+    if a.kind == 'const':
+        if prog.is_empty_ref(a) or prog.is_nil_index(a):
+            return False
+        return a.ty == 'bool' or (a.args[0] is not None and a.ty not in ('u32', 'usize', 'u64', 'i32', 'i64', 'u8', 'u16', 'isize'))
+    if a.kind == 'agg' and a.extra.get('akind') == 'adt' and a.extra.get('variant') is not None:
+        return True
+    return False
+
+
+def fold(prog, d):
+    """integer value of a switch discriminant that is a compile-time constant, else None"""
+    from ssa import strip
+    d = strip(d)
+    if d.kind == 'const' and isinstance(d.args[0], (int, bool)) and not isinstance(d.args[0], str):
+        return int(d.args[0])
+    if d.kind == 'un' and d.args[0] == 'Not':
+        v = fold(prog, d.args[1])
+        return None if v is None else (1 - v if v in (0, 1) else None)
+    if d.kind == 'discr':
+        x = strip(d.args[0])
+        while x.kind == 'load' and all(p == '*' for p in x.args[1]):
+            x = strip(x.args[0])
+        while x.kind == 'ref' and not x.fields():
+            x = strip(x.args[0])
+        if x.kind == 'agg' and x.extra.get('akind') == 'adt' and x.extra.get('variant') is not None and 'idx' in x.extra['variant']:
+            return int(x.extra['variant']['idx'])
+        return None
+    if d.kind == 'bin' and d.args[0] in ('Eq', 'Ne'):
+        a, b2 = fold(prog, d.args[1]), fold(prog, d.args[2])
+        if a is None or b2 is None:
+            return None
+        return int((a == b2) == (d.args[0] == 'Eq'))
+    return None
+
+
+def prune(prog, fn):
+    """replace switches on compile-time constants by jumps (after a splice); returns a new Fn or the same"""
+    from program import Fn
+    for _ in range(6):
+        b = fn.body
+        repl = {}
+        for blk, d in b.switch_discr.items():
+            if blk not in b.cfg.reach:
+                continue
+            v = fold(prog, d)
+            if v is None:
+                continue
+            t = b.mir['blocks'][blk]['term']
+            tb = t['otherwise']
+            for val, x in t['targets']:
+                if val == v:
+                    tb = x
+            repl[blk] = {'k': 'goto', 'target': tb, 'span': t.get('span')}
+        if not repl:
+            return fn
+        info = dict(fn.info)
+        mir = dict(info['mir'])
+        blocks = list(mir['blocks'])
+        for blk, t in repl.items():
+            nb = dict(blocks[blk])
+            nb['term'] = t
+            blocks[blk] = nb
+        mir['blocks'] = blocks
+        info['mir'] = mir
+        fn = Fn(prog, info)
+    return fn
+
+
+def recursive(prog, fn):
+    seen = set()
+    stack = [(c.callee or {}).get('path') for c in fn.body.calls]
+    while stack:
+        p = stack.pop()
+        if p is None or p in seen:
+            continue
+        if p == fn.path:
+            return True
+        seen.add(p)
+        g = prog.fns.get(p)
+        if g is not None and g.info.get('mir'):
+            stack.extend((c.callee or {}).get('path') for c in g.body.calls)
+            for c in g.body.calls:
+                for ca in (c.callee or {}).get('closure_args') or []:
+                    stack.append(ca if isinstance(ca, str) else None)
+    return False
+
+
 def expand(prog):
     """the pre-pass; returns a record of what was expanded (for the evidence)"""
     record = []
     from program import Fn
     for _round in range(MAX_ROUNDS):
         cbp = {}
+        flg = {}
+        accessors = set(prog.accessors)
         for f in prog.fns.values():
-            if f.is_closure or f.trait_item or not f.info.get('mir'):
+            if f.is_closure or not f.info.get('mir') or f.path in accessors:
                 continue
             p = callback_params(prog, f)
             if p:
                 cbp[f.path] = p
-        if not cbp:
+            if not f.trait_item:
+                q = flag_params(prog, f)
+                if q:
+                    flg[f.path] = q
+        if not cbp and not flg:
             break
+        rec = {}
         changed = False
         for F in list(prog.fns.values()):
             if not F.info.get('mir'):
@@ -146,26 +274,35 @@ def expand(prog):
             for c in F.body.calls:
                 cal = c.callee or {}
                 H = prog.fns.get(cal.get('path')) if cal.get('path') else None
-                if H is None or H.path not in cbp or H.path == F.path:
+                if H is None or (H.path not in cbp and H.path not in flg) or H.path == F.path:
+                    continue
+                if H.path not in rec:
+                    rec[H.path] = recursive(prog, H)
+                if rec[H.path]:
                     continue
                 binding = {}
-                for k in cbp[H.path]:
+                for k in cbp.get(H.path, {}):
                     a = strip_ref(c.args[k - 1]) if k - 1 < len(c.args) else None
                     if a is not None and a.kind == 'agg' and a.extra.get('akind') == 'closure' and a.extra.get('path') in prog.fns:
                         binding[k] = a.extra['path']
-                if len(binding) == len(cbp[H.path]):
-                    sites.append((c.point[0], H, binding))
+                flags = [k for k in flg.get(H.path, ()) if k - 1 < len(c.args) and constant_arg(prog, c.args[k - 1])]
+                if (H.path in cbp and len(binding) == len(cbp[H.path])) or flags:
+                    if len(binding) != len(cbp.get(H.path, {})):
+                        binding = {k: v for k, v in binding.items()}
+                    sites.append((c.point[0], H, binding, flags))
             if not sites:
                 continue
             # one site per round and function (block numbers of the others stay valid: blocks are only appended)
             host = copy.deepcopy(F.info['mir'])
-            for (blk, H, binding) in sites:
+            for (blk, H, binding, flags) in sites:
                 t = host['blocks'][blk]['term']
                 if t['k'] != 'call':
                     continue
                 hm = H.info['mir']
                 loff, boff = splice(host, blk, hm, t['args'], t['dest'], t.get('target'), t['span'], H.name)
-                for k, blocks in cbp[H.path].items():
+                for k, blocks in cbp.get(H.path, {}).items():
+                    if k not in binding:
+                        continue
                     P = prog.fns[binding[k]]
                     pm = P.info['mir']
                     for hb in blocks:
@@ -179,10 +316,10 @@ def expand(prog):
                         if any(o is None for o in ops):
                             continue
                         splice(host, nb, pm, ops, ct['dest'], ct.get('target'), ct['span'], P.name)
-                record.append({'caller': F.path, 'helper': H.path, 'closures': sorted(binding.values())})
+                record.append({'caller': F.path, 'helper': H.path, 'closures': sorted(binding.values()), 'flags': flags})
             info = dict(F.info)
             info['mir'] = host
-            nf = Fn(prog, info)
+            nf = prune(prog, Fn(prog, info))
             prog.fns[F.path] = nf
             changed = True
         prog._callees = prog._callers = None
